@@ -51,6 +51,8 @@ def build(spec):
         return hostile(spec[1])
     if t == 'R':
         return Record(spec[1])
+    if t == 'c':
+        return Celsius(float(spec[1]))
     if t == 'T':
         import builtins
         return getattr(builtins, spec[1])           # a class object (list, dict, str ...) passed as an argument (a factory / a kind)
@@ -140,6 +142,12 @@ class BadHashRuntime(object):
 
 import collections as _collections
 Pair = _collections.namedtuple('Pair', 'x y')       # a tuple subclass that cannot be built from ONE sequence argument
+
+
+class Celsius(float):
+    """a float SUBCLASS (as numpy.float64 is): rounded like any float"""
+    def __repr__(self):
+        return 'Celsius(%s)' % float.__repr__(self)
 
 
 class Sized(object):
